@@ -44,7 +44,7 @@ pub fn consumption_one(s: &Shape, tail: usize, len_field: u16, fm: FilterMode, e
     let filter = make_filter(fm);
     let r = dlt_message(input, filter.as_ref(), s.storage);
     let end = bt.msg_start + len_field as usize;
-    match r {
+    match &r {
         Ok((rest, pm)) => {
             assert!(rest.len() < input.len(), "no progress");
             assert!(end <= input.len(), "success although the declared length exceeds the buffer");
@@ -53,12 +53,11 @@ pub fn consumption_one(s: &Shape, tail: usize, len_field: u16, fm: FilterMode, e
             match pm {
                 ParsedMessage::FilteredOut(n) => {
                     assert!(expect == EXP_FILTERED, "filtered out although the reference keeps / refuses the message");
-                    assert!(n == len_field as usize - headers_len(s.htyp), "filtered-out marker does not carry the payload length");
+                    assert!(*n == len_field as usize - headers_len(s.htyp), "filtered-out marker does not carry the payload length");
                 }
                 ParsedMessage::Item(m) => {
                     assert!(expect == EXP_ITEM, "message returned where the reference filters / refuses / waits");
                     assert!(m.header.payload_length as usize == len_field as usize - headers_len(s.htyp));
-                    std::mem::forget(m);
                 }
                 ParsedMessage::Invalid => assert!(false, "Invalid marker with a remainder"),
             }
@@ -74,6 +73,7 @@ pub fn consumption_one(s: &Shape, tail: usize, len_field: u16, fm: FilterMode, e
         }
     }
     kani::cover!(true, "call returned");
+    std::mem::forget(r);
     std::mem::forget(filter);
 }
 
@@ -81,8 +81,10 @@ pub fn consumption_one(s: &Shape, tail: usize, len_field: u16, fm: FilterMode, e
 pub fn skipper_one(s: &Shape, tail: usize, len_field: u16) {
     let bt = build(s, tail, Some(len_field), None);
     let input = bt.buf.slice();
-    match dlt_consume_msg(input) {
+    let c = dlt_consume_msg(input);
+    match &c {
         Ok((rest, Some(consumed))) => {
+            let consumed = *consumed;
             assert!(consumed == 16 + len_field as u64, "consumed count is not storage header + declared length");
             assert!(rest.len() == input.len() - consumed as usize);
             assert!(rest.as_ptr() as usize == input.as_ptr() as usize + consumed as usize);
@@ -95,6 +97,7 @@ pub fn skipper_one(s: &Shape, tail: usize, len_field: u16) {
             assert!(16 + len_field as usize > input.len() || (len_field as usize) < headers_len(s.htyp), "skipper refused a complete message");
         }
     }
+    std::mem::forget(c);
 }
 
 // parser harnesses: gen_c04.rs (generated: one shape x filter mode x declared length per harness)
